@@ -16,8 +16,9 @@ Inductive dstat := DsNone | DsFlying | DsOver.
 (* per request:  ri_at/ri_time: op index / clock of its Issue;  ri_pend: polled and the last poll
    returned Pending;  ri_lastpend: 1 + op index of its last pending poll (0 = never);  ri_dial: own
    transport connect not called / in flight / over;  ri_resolved: outcome scripted for its dial while in
-   flight;  ri_popc: connection its Issue took out of the idle list;  ri_marked: an HTTP/2 attempt was
-   marked in flight for its origin when it was issued;  ri_avail: a usable (open, unexpired) idle
+   flight;  ri_popc: connection its Issue took out of the idle list;  ri_d6: it was issued while the shared
+   HTTP/2 handle of its origin was checked out by a request that had not been polled yet (the window of
+   known finding D6; such a request gets a connector although a connection exists);  ri_avail: a usable (open, unexpired) idle
    connection for its origin existed when it was issued;  ri_aband: it stopped waiting (hand-off of a
    foreign connection, or cancel) while its own dial was in flight *)
 Record rinfo := mkRi {
@@ -31,23 +32,23 @@ Record rinfo := mkRi {
   ri_dial : dstat;
   ri_resolved : option bool;
   ri_popc : option nat;
-  ri_marked : bool;
+  ri_d6 : bool;
   ri_avail : bool;
   ri_aband : bool
 }.
-Definition set_ri_at (v : nat) (x : rinfo) : rinfo := mkRi v (ri_time x) (ri_key x) (ri_proto x) (ri_stat x) (ri_pend x) (ri_lastpend x) (ri_dial x) (ri_resolved x) (ri_popc x) (ri_marked x) (ri_avail x) (ri_aband x).
-Definition set_ri_time (v : N) (x : rinfo) : rinfo := mkRi (ri_at x) v (ri_key x) (ri_proto x) (ri_stat x) (ri_pend x) (ri_lastpend x) (ri_dial x) (ri_resolved x) (ri_popc x) (ri_marked x) (ri_avail x) (ri_aband x).
-Definition set_ri_key (v : option key) (x : rinfo) : rinfo := mkRi (ri_at x) (ri_time x) v (ri_proto x) (ri_stat x) (ri_pend x) (ri_lastpend x) (ri_dial x) (ri_resolved x) (ri_popc x) (ri_marked x) (ri_avail x) (ri_aband x).
-Definition set_ri_proto (v : proto) (x : rinfo) : rinfo := mkRi (ri_at x) (ri_time x) (ri_key x) v (ri_stat x) (ri_pend x) (ri_lastpend x) (ri_dial x) (ri_resolved x) (ri_popc x) (ri_marked x) (ri_avail x) (ri_aband x).
-Definition set_ri_stat (v : rstat) (x : rinfo) : rinfo := mkRi (ri_at x) (ri_time x) (ri_key x) (ri_proto x) v (ri_pend x) (ri_lastpend x) (ri_dial x) (ri_resolved x) (ri_popc x) (ri_marked x) (ri_avail x) (ri_aband x).
-Definition set_ri_pend (v : bool) (x : rinfo) : rinfo := mkRi (ri_at x) (ri_time x) (ri_key x) (ri_proto x) (ri_stat x) v (ri_lastpend x) (ri_dial x) (ri_resolved x) (ri_popc x) (ri_marked x) (ri_avail x) (ri_aband x).
-Definition set_ri_lastpend (v : nat) (x : rinfo) : rinfo := mkRi (ri_at x) (ri_time x) (ri_key x) (ri_proto x) (ri_stat x) (ri_pend x) v (ri_dial x) (ri_resolved x) (ri_popc x) (ri_marked x) (ri_avail x) (ri_aband x).
-Definition set_ri_dial (v : dstat) (x : rinfo) : rinfo := mkRi (ri_at x) (ri_time x) (ri_key x) (ri_proto x) (ri_stat x) (ri_pend x) (ri_lastpend x) v (ri_resolved x) (ri_popc x) (ri_marked x) (ri_avail x) (ri_aband x).
-Definition set_ri_resolved (v : option bool) (x : rinfo) : rinfo := mkRi (ri_at x) (ri_time x) (ri_key x) (ri_proto x) (ri_stat x) (ri_pend x) (ri_lastpend x) (ri_dial x) v (ri_popc x) (ri_marked x) (ri_avail x) (ri_aband x).
-Definition set_ri_popc (v : option nat) (x : rinfo) : rinfo := mkRi (ri_at x) (ri_time x) (ri_key x) (ri_proto x) (ri_stat x) (ri_pend x) (ri_lastpend x) (ri_dial x) (ri_resolved x) v (ri_marked x) (ri_avail x) (ri_aband x).
-Definition set_ri_marked (v : bool) (x : rinfo) : rinfo := mkRi (ri_at x) (ri_time x) (ri_key x) (ri_proto x) (ri_stat x) (ri_pend x) (ri_lastpend x) (ri_dial x) (ri_resolved x) (ri_popc x) v (ri_avail x) (ri_aband x).
-Definition set_ri_avail (v : bool) (x : rinfo) : rinfo := mkRi (ri_at x) (ri_time x) (ri_key x) (ri_proto x) (ri_stat x) (ri_pend x) (ri_lastpend x) (ri_dial x) (ri_resolved x) (ri_popc x) (ri_marked x) v (ri_aband x).
-Definition set_ri_aband (v : bool) (x : rinfo) : rinfo := mkRi (ri_at x) (ri_time x) (ri_key x) (ri_proto x) (ri_stat x) (ri_pend x) (ri_lastpend x) (ri_dial x) (ri_resolved x) (ri_popc x) (ri_marked x) (ri_avail x) v.
+Definition set_ri_at (v : nat) (x : rinfo) : rinfo := mkRi v (ri_time x) (ri_key x) (ri_proto x) (ri_stat x) (ri_pend x) (ri_lastpend x) (ri_dial x) (ri_resolved x) (ri_popc x) (ri_d6 x) (ri_avail x) (ri_aband x).
+Definition set_ri_time (v : N) (x : rinfo) : rinfo := mkRi (ri_at x) v (ri_key x) (ri_proto x) (ri_stat x) (ri_pend x) (ri_lastpend x) (ri_dial x) (ri_resolved x) (ri_popc x) (ri_d6 x) (ri_avail x) (ri_aband x).
+Definition set_ri_key (v : option key) (x : rinfo) : rinfo := mkRi (ri_at x) (ri_time x) v (ri_proto x) (ri_stat x) (ri_pend x) (ri_lastpend x) (ri_dial x) (ri_resolved x) (ri_popc x) (ri_d6 x) (ri_avail x) (ri_aband x).
+Definition set_ri_proto (v : proto) (x : rinfo) : rinfo := mkRi (ri_at x) (ri_time x) (ri_key x) v (ri_stat x) (ri_pend x) (ri_lastpend x) (ri_dial x) (ri_resolved x) (ri_popc x) (ri_d6 x) (ri_avail x) (ri_aband x).
+Definition set_ri_stat (v : rstat) (x : rinfo) : rinfo := mkRi (ri_at x) (ri_time x) (ri_key x) (ri_proto x) v (ri_pend x) (ri_lastpend x) (ri_dial x) (ri_resolved x) (ri_popc x) (ri_d6 x) (ri_avail x) (ri_aband x).
+Definition set_ri_pend (v : bool) (x : rinfo) : rinfo := mkRi (ri_at x) (ri_time x) (ri_key x) (ri_proto x) (ri_stat x) v (ri_lastpend x) (ri_dial x) (ri_resolved x) (ri_popc x) (ri_d6 x) (ri_avail x) (ri_aband x).
+Definition set_ri_lastpend (v : nat) (x : rinfo) : rinfo := mkRi (ri_at x) (ri_time x) (ri_key x) (ri_proto x) (ri_stat x) (ri_pend x) v (ri_dial x) (ri_resolved x) (ri_popc x) (ri_d6 x) (ri_avail x) (ri_aband x).
+Definition set_ri_dial (v : dstat) (x : rinfo) : rinfo := mkRi (ri_at x) (ri_time x) (ri_key x) (ri_proto x) (ri_stat x) (ri_pend x) (ri_lastpend x) v (ri_resolved x) (ri_popc x) (ri_d6 x) (ri_avail x) (ri_aband x).
+Definition set_ri_resolved (v : option bool) (x : rinfo) : rinfo := mkRi (ri_at x) (ri_time x) (ri_key x) (ri_proto x) (ri_stat x) (ri_pend x) (ri_lastpend x) (ri_dial x) v (ri_popc x) (ri_d6 x) (ri_avail x) (ri_aband x).
+Definition set_ri_popc (v : option nat) (x : rinfo) : rinfo := mkRi (ri_at x) (ri_time x) (ri_key x) (ri_proto x) (ri_stat x) (ri_pend x) (ri_lastpend x) (ri_dial x) (ri_resolved x) v (ri_d6 x) (ri_avail x) (ri_aband x).
+Definition set_ri_d6 (v : bool) (x : rinfo) : rinfo := mkRi (ri_at x) (ri_time x) (ri_key x) (ri_proto x) (ri_stat x) (ri_pend x) (ri_lastpend x) (ri_dial x) (ri_resolved x) (ri_popc x) v (ri_avail x) (ri_aband x).
+Definition set_ri_avail (v : bool) (x : rinfo) : rinfo := mkRi (ri_at x) (ri_time x) (ri_key x) (ri_proto x) (ri_stat x) (ri_pend x) (ri_lastpend x) (ri_dial x) (ri_resolved x) (ri_popc x) (ri_d6 x) v (ri_aband x).
+Definition set_ri_aband (v : bool) (x : rinfo) : rinfo := mkRi (ri_at x) (ri_time x) (ri_key x) (ri_proto x) (ri_stat x) (ri_pend x) (ri_lastpend x) (ri_dial x) (ri_resolved x) (ri_popc x) (ri_d6 x) (ri_avail x) v.
 
 (* per connection:  ci_origin: the request whose dial created it;  ci_closed: op index of the first
    ConnClose / Upgrade;  ci_back/ci_back_time: op index / clock of its last hand-back to the pool (or
@@ -160,6 +161,17 @@ Definition popped_conn (cfg : config) (m : mst) (before after : list nat) : opti
   | [] => None
   end.
 
+Definition is_live (x : rinfo) : bool := match ri_stat x with SLive => true | _ => false end.
+
+(* a request that popped the shared HTTP/2 handle and has not been polled yet (D6 window) *)
+Definition h2_handle_out (m : mst) (r : nat) (k : option key) : bool :=
+  existsb (fun ix => let '(i, x) := ix in
+                     negb (Nat.eqb i r) && same_key (ri_key x) k && is_live x
+                     && match ri_popc x with
+                        | Some c => match nth_error (m_conns m) c with Some y => ci_share y && match ci_closed y with None => true | _ => false end | None => false end
+                        | None => false end)
+          (combine (seq 0 (List.length (m_reqs m))) (m_reqs m)).
+
 (* the tracker's reading of the operation itself (before its events) *)
 Definition track_op (cfg : config) (m : mst) (o : op) (ob : opobs) : mst :=
   match o with
@@ -174,7 +186,7 @@ Definition track_op (cfg : config) (m : mst) (o : op) (ob : opobs) : mst :=
       let popc := popped_conn cfg m before (idle_of (o_snap ob) t) in
       let avail := existsb (usable cfg m) before in
       set_m_keys ks (set_m_reqs (m_reqs m ++ [mkRi (m_i m) (m_time m) k p SLive false 0 DsNone None popc
-                                                  (marker_of (o_snap (m_prev m)) t) avail false]) m)
+                                                  (h2_handle_out m (List.length (m_reqs m)) k) avail false]) m)
   | Cancel r =>
       match nth_error (m_reqs m) r with
       | Some x => match ri_stat x with
@@ -305,7 +317,6 @@ Definition chk_C05 (cfg : config) (m : mst) (o : op) (ob : opobs) : bool :=
 Definition mon_C05 := mon_with chk_C05.
 
 (* ------------------------------------------------------------------ C03 (and C19 cleanup) *)
-Definition is_live (x : rinfo) : bool := match ri_stat x with SLive => true | _ => false end.
 Definition is_gone (x : rinfo) : bool := match ri_stat x with SDone | SCancelled => true | _ => false end.
 
 (* (a) no lost wake-up: a future whose last poll returned Pending and which now makes progress was
@@ -346,23 +357,22 @@ Definition mon_C03 (cfg : config) (ops : list op) (drained : bool) (obs : list o
   mon_with chk_C03 cfg ops obs && (if drained then all_resolved (final_mst cfg m0 ops obs) else true).
 
 (* ------------------------------------------------------------------ C04 *)
+(* has a multiplexed connection for this origin been established since op index [i]? *)
+Definition share_conn_since (m : mst) (k : option key) (i : nat) : bool :=
+  existsb (fun cy => let '(c, y) := cy in ci_share y && Nat.leb i (ci_new_at y) && same_key (conn_key m c) k)
+          (combine (seq 0 (List.length (m_conns m))) (m_conns m)).
+
 (* is an HTTP/2 attempt of another request for the same origin in flight?  (its transport connect has
-   been called, the environment has not resolved it yet, and it has not been dropped) *)
+   been called, the environment has not resolved it yet, it has not been dropped, and no multiplexed
+   connection for the origin has been established since that request was issued - from then on the
+   attempt is redundant and the request takes the established connection at its next poll) *)
 Definition h2_flying (cfg : config) (m : mst) (r : nat) (k : option key) : bool :=
   existsb (fun ix => let '(i, x) := ix in
                      negb (Nat.eqb i r) && same_key (ri_key x) k
                      && match ri_proto x with H2 => true | H1 => false end
                      && match ri_dial x, ri_resolved x with DsFlying, None => true | _, _ => false end
-                     && (is_live x || g_cont cfg))
-          (combine (seq 0 (List.length (m_reqs m))) (m_reqs m)).
-
-(* a request that popped the shared HTTP/2 handle and has not been polled yet (D6 window) *)
-Definition h2_handle_out (m : mst) (r : nat) (k : option key) : bool :=
-  existsb (fun ix => let '(i, x) := ix in
-                     negb (Nat.eqb i r) && same_key (ri_key x) k && is_live x
-                     && match ri_popc x with
-                        | Some c => match nth_error (m_conns m) c with Some y => ci_share y && match ci_closed y with None => true | _ => false end | None => false end
-                        | None => false end)
+                     && (is_live x || g_cont cfg)
+                     && negb (share_conn_since m k (ri_at x)))
           (combine (seq 0 (List.length (m_reqs m))) (m_reqs m)).
 
 (* [d6]: also demand the clause that the pinned code violates (known finding D6: the shared handle is
@@ -372,7 +382,7 @@ Definition chk_ev_C04 (d6 : bool) (cfg : config) (ob : opobs) (m : mst) (e : ev)
   | EDial r _ =>
       match nth_error (m_reqs m) r with
       | Some x =>
-          if g_pool cfg then
+          if g_pool cfg && (d6 || negb (ri_d6 x)) then                 (* without [d6]: requests issued in the D6 window are exempt *)
             negb (ri_avail x)                                          (* S1/S3: a usable idle connection existed at its Issue *)
             && negb (match ri_proto x with H2 => h2_flying cfg m r (ri_key x) | H1 => false end)   (* S2 *)
             && negb (d6 && h2_handle_out m r (ri_key x))                 (* S3 while the shared handle is checked out *)
